@@ -26,7 +26,7 @@
 (* table (built by the specification itself) x every erroneous token       *)
 (* string up to length L x two cost functions.                             *)
 (***************************************************************************)
-EXTENDS CPCTPlus, Json, IOUtils
+EXTENDS CanonTable, Json, IOUtils
 
 CONSTANTS L,        \* input length bound
           MAXC,     \* repair cost bound (nodes beyond it are dropped: result `capped')
@@ -38,23 +38,6 @@ Gs == ndJsonDeserialize(IOEnv.GRAMMARS)
 VARIABLES gi, inp, tbl, tcost, st0, la0,     \* the instance: grammar, input, table, token tcost, error configuration
           buckets, bc, phase, sweep, scs, capped
 avars == <<C, pvars, gi, inp, tbl, tcost, st0, la0, buckets, bc, phase, sweep, scs, capped>>
-
-\* ---- the canonical LR(1) automaton as a graph record, and its Yacc table ----
-RECURSIVE SeqOfSet(_)
-SeqOfSet(S) == IF S = {} THEN <<>> ELSE LET x == CHOOSE y \in S : TRUE IN <<x>> \o SeqOfSet(S \ {x})
-CanonAuto ==
-  LET ks == <<StartKernel>> \o SeqOfSet(Canon \ {StartKernel})
-      cl == [i \in 1 .. Len(ks) |-> Closure(ks[i])]
-      ix(k) == CHOOSE i \in 1 .. Len(ks) : ks[i] = k
-  IN [n |-> Len(ks), start |-> 0, core |-> ks, closed |-> cl,
-      edges |-> [i \in 1 .. Len(ks) |-> [s \in NextSyms(cl[i]) |-> ix(Goto(cl[i], s)) - 1]]]
-TableOf(a) ==
-  [start |-> 0,
-   act  |-> [s \in 1 .. a.n |-> [t \in 1 .. C.nt |-> YaccAct(a, s - 1, t - 1)]],
-   goto |-> [s \in 1 .. a.n |-> [r \in 1 .. C.nr |-> YaccGoto(a, s - 1, r - 1)]]]
-
-AllStr(n) == UNION { [1 .. k -> (Tokens \ {EOF})] : k \in 0 .. n }
-LexOfToks(x) == [i \in 1 .. Len(x) |-> <<x[i], 2 * (i - 1), 1>>]
 
 \* ---- entries ----
 Top(st) == st[Len(st)]
